@@ -879,7 +879,13 @@ class BackendZ3(Backend):
 
     def _unsat_core(self, s):
         cores = s.unsat_core()
-        return [impl.children()[1] for impl in s.assertions() if impl.children()[0] in cores]
+        # A solver obtained with translate() (clone_solver) reports the tracked *formulas* in its core, not the
+        # literals they are tracked by
+        return [
+            impl.children()[1]
+            for impl in s.assertions()
+            if impl.children()[0] in cores or impl.children()[1] in cores
+        ]
 
     @condom
     def _primitive_from_model(self, model, expr):
